@@ -20,6 +20,9 @@ def fa_scenario(rng, tier, jfa=None, sessions=None):
         Dd = Dd * rng.choice([-1.0, 1.0], size=C * D)  # D enters only as D z with z ~ N(0, 1): the sign of an entry is free (and EM keeps it)
     if rng.random() < 0.2:
         Dd[int(rng.integers(0, C * D))] = 0.0
+    int_means = bool(rng.random() < 0.15)
+    if int_means:  # UBM means typed in by hand: whole numbers in an integer-typed array (the setter takes any array)
+        m = np.rint(m * 2.0)
     int_sub = bool(rng.random() < 0.15)
     if int_sub:  # loading matrices and offsets typed in by hand: whole numbers, in integer-typed arrays (the setters take any array-like)
         U, V = np.rint(U * 2.0), np.rint(V * 2.0)
@@ -33,7 +36,7 @@ def fa_scenario(rng, tier, jfa=None, sessions=None):
         k0 = int(rng.integers(0, ns - 1))
         sts[k0] = dict(n=np.zeros(C), f=np.zeros((C, D)), t=0)  # a recording of which no frame was kept
     return dict(C=C, D=D, rU=rU, rV=rV, jfa=jfa, w=w, m=m, v=v, U=U, V=V, Dd=Dd, sts=sts,
-                int_subspaces=int_sub, ubm_layout="F" if rng.random() < 0.2 else "C", route=pick_route(rng), np_ints=bool(rng.random() < 0.3), layout=["C", "C", "F", "strided"][int(rng.integers(0, 4))])
+                int_subspaces=int_sub, ubm_int_means=int_means, ubm_layout="F" if rng.random() < 0.2 else "C", route=pick_route(rng), np_ints=bool(rng.random() < 0.3), layout=["C", "C", "F", "strided"][int(rng.integers(0, 4))])
 
 
 def rand_stat(rng, C, D, m, v, zero=False):
@@ -110,6 +113,9 @@ def mk_machine(sc, enroll_iterations=1, em_iterations=1):
     ubm = gen.mk_gmm(w, m0, v0)
     if sc.get("ubm_layout") == "F":
         ubm.means, ubm.variances = lay(m0), lay(v0)
+    as_int = (lambda a: np.rint(a).astype(np.int64)) if sc.get("ubm_int_means") and np.all(m == np.rint(m)) else (lambda a: a)
+    if not other_ubm:
+        ubm.means = lay(as_int(m0))
     if sc["jfa"]:
         mach = JFAMachine(sc["rU"], sc["rV"], ubm=ubm, enroll_iterations=enroll_iterations, em_iterations=em_iterations)
         mach.V = V + rng.normal(size=V.shape) if other_sub else V
@@ -120,7 +126,7 @@ def mk_machine(sc, enroll_iterations=1, em_iterations=1):
     if route != "fresh":
         _warmup(mach, sc, rng)
         if other_ubm:
-            mach.ubm.means = lay(m)
+            mach.ubm.means = lay(as_int(m))
             mach.ubm.variances = lay(v)
         if other_sub:
             if sc["jfa"]:
